@@ -6,6 +6,7 @@
   the 6 s deadline, are observed by the listener-level correspondence runs (partial).
 -/
 import MosVerif.Lemmas.RouterBasic
+import MosVerif.Lemmas.RouterSpecMain
 import MosVerif.Model.RouterIO
 namespace MosVerif.C03
 open MosVerif.Wire MosVerif.Router
@@ -135,6 +136,154 @@ theorem relayed_rcode (env : Env) (q : Question) (r : Rule) (u : Nat) (resp : Ms
 /-- non-vacuity: an opcode-5 query gets NOTIMP with its own ID -/
 example : (handle ⟨false, .none, [], []⟩ ⟨⟨77, false, 5, false, false, true, false, false, false, 0⟩, [⟨[1, 97], 1, 1⟩], [], [], []⟩).resp.hdr
     = ⟨77, true, 5, false, false, true, true, false, false, 4⟩ := by decide
+
+/-! ### The model meets the executable specification
+
+  `RouterIO.spec` is the judgement of C03 + C10 + C12 that the harness applies to what the Go code answered.
+  The theorems below apply the same function to what the MODEL answers and prove the verdict is "ok" on every
+  path (NOTIMP, no rule, reject, no action, forward with failure / mismatching reply / relayed reply), for every
+  rule list (domain sets shared or not, reverse), every upstream behaviour, ECS on or off and every client
+  address.  Proof: Lemmas/RouterSpecReq.lean (the forwarded bytes decode back to `reqMsg`, through the C02 round
+  trip) and Lemmas/RouterSpecMain.lean (`spec` cut at its joints, one lemma per path).
+
+  Hypotheses — each is needed (counterexamples below), each is decidable (`specHyps`):
+   * the query's questions are well formed (`questionWF`: scannable name of ≤ 254 octets, 16-bit type and class)
+     — true for every query the decoder accepts (`C02.unpackMsg_wf`); without it `packReq` fails or re-decodes to
+     another question.  Nothing else of `msgWF m` is used (no range condition on the header, no condition on
+     the query's records);
+   * reject codes fit the 4-bit RCODE field: the model answers `reject` itself, the specification expects what
+     survives the wire header, `reject % 16`;
+   * an upstream reply carries at most TWO OPT records (weaker than C12's `UpsOneOpt`): `forward` removes one
+     and the EDNS0 fix-up of `handleReqMsg` another one; a third would reach the client. -/
+
+/-- what `spec` says about the model's own answer -/
+def judged (env : Env) (m : Msg) : String :=
+  RouterIO.spec env m ⟨(handle env m).resp, (handle env m).forwards⟩
+
+/-- ★★ `model_meets_spec`: for every environment and every query — questions well formed, reject codes < 16,
+    at most two OPT records per upstream reply — the executable specification judges the model's answer
+    and its upstream traffic "ok". -/
+theorem model_meets_spec (env : Env) (m : Msg)
+    (hq : ∀ q ∈ m.questions, questionWF q = true)
+    (hrej : ∀ ru ∈ env.rules, ru.reject < 16)
+    (hups : ∀ (u : Nat) (resp : Msg), env.ups[u]? = some (UpOutcome.reply resp) → countOpt resp.additionals ≤ 2) :
+    RouterIO.spec env m ⟨(handle env m).resp, (handle env m).forwards⟩ = "ok" :=
+  spec_model env m hq hrej hups
+
+/-- the same for a query the decoder accepted (`msgWF`, see `C02.unpackMsg_wf`) -/
+theorem model_meets_spec_wf (env : Env) (m : Msg) (hm : msgWF m = true)
+    (hrej : ∀ ru ∈ env.rules, ru.reject < 16)
+    (hups : ∀ (u : Nat) (resp : Msg), env.ups[u]? = some (UpOutcome.reply resp) → countOpt resp.additionals ≤ 2) :
+    judged env m = "ok" :=
+  spec_model env m (msgWF_parts hm).2.1 hrej hups
+
+/-- ★ Unsupported queries need no hypothesis at all. -/
+theorem model_meets_spec_unsupported (env : Env) (m : Msg) (h : ¬ supported m) : judged env m = "ok" := by
+  apply spec_model_notImpl
+  cases hn : notImpl m with
+  | true => rfl
+  | false =>
+    obtain ⟨h1, h2, h3, q0, h4⟩ := notImpl_false m hn
+    exact absurd ⟨h1, h2, h3, by rw [h4]; rfl⟩ h
+
+/-- ★ The sharpest form: each hypothesis only for the path the query really takes — `ru` is the deciding
+    (first applicable) rule; the question must be well formed only if `ru` forwards, and only a reply that is
+    actually relayed (selected upstream, right question) is limited to two OPT records. -/
+theorem model_meets_spec_path (env : Env) (m : Msg) (q0 : Question) (hs : supported m) (hq : m.questions = [q0])
+    (hwf : ∀ ru u, env.rules.find? (fun r => r.applies (lowerName q0.name)) = some ru → ru.reject = 0 →
+      ru.upstream = some u → questionWF q0 = true)
+    (hrej : ∀ ru, env.rules.find? (fun r => r.applies (lowerName q0.name)) = some ru → ru.reject < 16)
+    (hups : ∀ ru u resp, env.rules.find? (fun r => r.applies (lowerName q0.name)) = some ru → ru.reject = 0 →
+      ru.upstream = some u → env.ups[u]? = some (.reply resp) →
+      isRespOfQuestion resp ⟨lowerName q0.name, q0.qtype, q0.qclass⟩ = true → countOpt resp.additionals ≤ 2) :
+    judged env m = "ok" := by
+  refine spec_model_supported env m q0 ?_ hq hwf hrej hups
+  obtain ⟨h1, h2, h3, h4⟩ := hs
+  simp [notImpl, h1, h2, h3, h4]
+
+/-- the three hypotheses of `model_meets_spec` as one decidable check -/
+def specHyps (env : Env) (m : Msg) : Bool :=
+  m.questions.all questionWF && env.rules.all (fun ru => decide (ru.reject < 16)) &&
+    env.ups.all (fun o => match o with
+      | .reply resp => decide (countOpt resp.additionals ≤ 2)
+      | .fail => true)
+
+theorem model_meets_spec_dec (env : Env) (m : Msg) (h : specHyps env m = true) : judged env m = "ok" := by
+  simp only [specHyps, Bool.and_eq_true, List.all_eq_true, decide_eq_true_eq] at h
+  obtain ⟨⟨h1, h2⟩, h3⟩ := h
+  refine spec_model env m h1 h2 ?_
+  intro u resp hu
+  have := h3 _ (List.mem_of_getElem? hu)
+  simpa using this
+
+/-- ★ Key sub-lemma: the query bytes `packReq` produces for a well-formed question always exist and decode
+    back to exactly `reqMsg env q` — RD set, that one question, no answer/authority records and the proxy's own
+    OPT (UDP size 1200) whose data is the expected ECS option (`wantEcs`) or empty. -/
+theorem packReq_roundtrip (env : Env) (q : Question) (hq : questionWF q = true) :
+    ∃ wire, packReq env q = .ok wire ∧ unpackMsg wire = .ok (reqMsg env q) ∧
+      reqMsg env q = ⟨{ emptyHdr with rd := true }, [q], [], [], [⟨[], typeOPT, 1200, 0, .raw (RouterIO.wantEcs env)⟩]⟩ := by
+  obtain ⟨wire, h1, h2⟩ := packReq_decodes env q hq
+  exact ⟨wire, h1, h2, reqMsg_eq env q⟩
+
+/-- lower-casing a well-formed name gives a well-formed name (length octets ≤ 63 are not letters) -/
+theorem lowerName_wf (n : Name) (h : nameWF n = true) : nameWF (lowerName n) = true := nameWF_lowerName n h
+
+/-- ★ `prefetch_forward_ok`: the refresh path (`runPrefetchFw`) — whatever `packReq` sends for the
+    (lower-cased, well-formed) question passes the C10/C12 judgement of a forwarded query. -/
+theorem prefetch_forward_ok (env : Env) (q : Question) (wire : Bytes) (hq : questionWF q = true)
+    (h : packReq env q = .ok wire) : RouterIO.checkForwarded env q wire = "ok" :=
+  checkForwarded_packReq env q hq wire h
+
+/-- … in the form `runPrefetchFw` uses it: the model side never answers "no refresh query" for a well-formed
+    question, and the query it predicts is judged ok. -/
+theorem prefetch_forward_ok' (env : Env) (q0 : Question) (hq : questionWF q0 = true) :
+    ∃ wire, packReq env { q0 with name := lowerName q0.name } = .ok wire ∧
+      RouterIO.checkForwarded env { q0 with name := lowerName q0.name } wire = "ok" := by
+  obtain ⟨wire, h1, _⟩ := packReq_decodes env ⟨lowerName q0.name, q0.qtype, q0.qclass⟩ (questionWF_lower q0 hq)
+  exact ⟨wire, h1, checkForwarded_packReq env _ (questionWF_lower q0 hq) wire h1⟩
+
+/-! #### non-vacuity and necessity of the hypotheses -/
+
+/-- `www.Example.com` -/
+def exName : Name := [3, 119, 119, 119, 7, 69, 120, 97, 109, 112, 108, 101, 3, 99, 111, 109]
+/-- a query: RD, one question (mixed case), an OPT with the DO bit and a 4096-octet buffer, plus a non-OPT record -/
+def exQuery (name : Name) : Msg :=
+  ⟨⟨0xBEEF, false, 0, false, false, true, false, true, false, 0⟩, [⟨name, 28, 1⟩], [], [],
+    [⟨[], 41, 4096, 32768, .raw [0, 10, 0, 2, 1, 2]⟩, ⟨[1, 120], 16, 1, 5, .raw [1, 65]⟩]⟩
+def exOpt (size : Nat) : Resource := ⟨[], 41, size, 0, .raw []⟩
+/-- an upstream reply to `exQuery` with `adds` as its additional section -/
+def exReply (adds : List Resource) : Msg :=
+  ⟨⟨7, true, 0, false, false, true, true, false, false, 3⟩,
+    [⟨[3, 119, 119, 119, 7, 101, 120, 97, 109, 112, 108, 101, 3, 99, 111, 109], 28, 1⟩], [],
+    [⟨[3, 99, 111, 109], 6, 1, 60, .soa [1, 97] [1, 98] 1 2 3 4 5⟩], adds⟩
+/-- a shared domain set (`org`, `example.net`), a reverse rule, a reject rule, ECS on, an IPv4-mapped client -/
+def exEnv (reject : Nat) (adds : List Resource) : Env :=
+  let set : List Name := [[3, 111, 114, 103], [7, 101, 120, 97, 109, 112, 108, 101, 3, 110, 101, 116]]
+  { ecs := true, addr := .v6 [0, 0, 0, 0, 0, 0, 0, 0, 0, 0, 255, 255, 192, 0, 2, 77]
+    rules := [⟨some set, false, 0, some 1⟩, ⟨some [[3, 99, 111, 109]], true, reject, none⟩, ⟨some set, true, 0, some 0⟩,
+      ⟨none, false, 5, none⟩]
+    ups := [.reply (exReply adds), .fail] }
+
+/-- the hypotheses hold for a non-trivial environment and query: third rule (reverse of a shared set) forwards to
+    upstream 0, whose reply (NXDOMAIN, two OPT records and another record) is relayed … -/
+example : specHyps (exEnv 3 [exOpt 1232, ⟨[1, 120], 16, 1, 5, .raw []⟩, exOpt 512]) (exQuery exName) = true := by decide
+/-- … so the specification accepts what the model does with it -/
+example : judged (exEnv 3 [exOpt 1232, ⟨[1, 120], 16, 1, 5, .raw []⟩, exOpt 512]) (exQuery exName) = "ok" :=
+  model_meets_spec_dec _ _ (by decide)
+/-- … and on that path the model really relays NXDOMAIN with the proxy's own OPT only -/
+example : (handle (exEnv 3 [exOpt 1232, ⟨[1, 120], 16, 1, 5, .raw []⟩, exOpt 512]) (exQuery exName)).resp.hdr.rcode = 3 ∧
+    (handle (exEnv 3 [exOpt 1232, ⟨[1, 120], 16, 1, 5, .raw []⟩, exOpt 512]) (exQuery exName)).resp.additionals
+      = [⟨[1, 120], 16, 1, 5, .raw []⟩, exOpt 1200] := by decide
+
+/-- necessity 1 — an ill-formed question (a label running past the end of the name, which no decoded query can
+    contain): `packReq` fails, nothing is forwarded, the specification objects -/
+example : judged { exEnv 3 [] with rules := [⟨none, false, 0, some 0⟩] } (exQuery [9, 119, 119, 119])
+    = "viol:C10:not-forwarded" := by decide
+/-- necessity 2 — a reject code ≥ 16 (`test.de` hits the second rule): the model answers 19, the wire can only carry 3 -/
+example : judged (exEnv 19 []) (exQuery [4, 116, 101, 115, 116, 2, 100, 101]) = "viol:C10:reject-rcode" := by decide
+set_option maxRecDepth 100000 in
+/-- necessity 3 — a relayed reply with three OPT records: one of the upstream's OPTs reaches the client -/
+example : judged (exEnv 3 [exOpt 1232, exOpt 512, exOpt 513]) (exQuery exName) = "viol:C12:opt-count" := by decide
 
 /-- tie: the NOTIMP predicate, the five header assignments, the request deadline (6 s), the deferred
     "always a response" fallback, the single-question copy and the upstream question check. -/
